@@ -18,6 +18,8 @@ func (e *Exec) panicObl(f *frame, st *State, what, cond string, ins ssa.Instruct
 		return
 	}
 	e.oblig(st, "panic", what, cond, ins.String(), e.position(ins.Pos()))
+	// execution continues only if the instruction did not panic
+	e.assume(implies(st.Reach, cond))
 }
 
 // instr executes one instruction; returns true if the rest of the block is not executed.
@@ -123,16 +125,16 @@ func (e *Exec) instr(f *frame, st *State, ins ssa.Instruction) bool {
 		k := e.value(f, x.Index)
 		if mt, ok := x.X.Type().Underlying().(*types.Map); ok {
 			val, pres := e.mapLookup(st, v.T, k.T, mt)
-			e.S.assume(implies(st.Reach, implies(pres, app(">", e.mapLen(st, v.T), "0"))))
+			e.assume(implies(st.Reach, implies(pres, app(">", e.mapLen(st, v.T), "0"))))
 			if x.CommaOk {
 				e.bind(f, x, Val{}) // placeholder
 				vv := val
 				if !isAtom(vv.T) {
-					vv.T = e.S.define(e.S.freshName(f.prefix+x.Name()+".v"), vv.Ty.Sort(), vv.T)
+					vv.T = e.defOrInline(e.S.freshName(f.prefix+x.Name()+".v"), vv.Ty.Sort(), vv.T)
 				}
 				pp := pres
 				if !isAtom(pp) {
-					pp = e.S.define(e.S.freshName(f.prefix+x.Name()+".ok"), "Bool", pp)
+					pp = e.defOrInline(e.S.freshName(f.prefix+x.Name()+".ok"), "Bool", pp)
 				}
 				f.vals[x] = Val{Tuple: []Val{vv, {T: pp, Ty: tyBool}}, Ty: tyOfGo(x.Type())}
 			} else {
@@ -161,12 +163,12 @@ func (e *Exec) instr(f *frame, st *State, ins ssa.Instruction) bool {
 		mt := x.Type().Underlying().(*types.Map)
 		kty, vty := tyOfGo(mt.Key()), tyOfGo(mt.Elem())
 		e.ensureSortDecl(vty)
-		pn := mapPHeapName(kty.Sort(), vty.Sort())
+		pn := mapPHeapName(kty, vty)
 		e.regHeap(pn, "(Array Int (Array "+kty.Sort()+" Bool))")
-		e.regHeap(mapVHeapName(kty.Sort(), vty.Sort()), "(Array Int (Array "+kty.Sort()+" "+vty.Sort()+"))")
+		e.regHeap(mapVHeapName(kty, vty), "(Array Int (Array "+kty.Sort()+" "+vty.Sort()+"))")
 		e.regHeap(mapLHeapName(), "(Array Int Int)")
-		e.S.assume(eq(app("select", e.get(st, pn), r), "((as const (Array "+kty.Sort()+" Bool)) false)"))
-		e.S.assume(eq(app("select", e.get(st, mapLHeapName()), r), "0"))
+		e.assume(eq(app("select", e.get(st, pn), r), "((as const (Array "+kty.Sort()+" Bool)) false)"))
+		e.assume(eq(app("select", e.get(st, mapLHeapName()), r), "0"))
 		e.allAllocs[r] = true
 		f.vals[x] = Val{T: r, Ty: tyOfGo(x.Type())}
 	case *ssa.MakeSlice:
@@ -176,10 +178,10 @@ func (e *Exec) instr(f *frame, st *State, ins ssa.Instruction) bool {
 		sl := x.Type().Underlying().(*types.Slice)
 		ety := tyOfGo(sl.Elem())
 		if !isStructValType(sl.Elem()) {
-			name := elemHeapName(ety.Sort())
+			name := elemHeapName(ety)
 			e.regHeap(name, "(Array Int (Array Int "+ety.Sort()+"))")
 			e.ensureSortDecl(ety)
-			e.S.assume(eq(app("select", e.get(st, name), r), "((as const (Array Int "+ety.Sort()+")) "+ety.Zero(e.S)+")"))
+			e.assume(eq(app("select", e.get(st, name), r), "((as const (Array Int "+ety.Sort()+")) "+ety.Zero(e.S)+")"))
 		}
 		e.allAllocs[r] = true
 		e.bind(f, x, Val{T: app("mk-slice", r, "0", n.T), Ty: tyOfGo(x.Type())})
@@ -309,7 +311,7 @@ func (e *Exec) execUnOp(f *frame, st *State, x *ssa.UnOp) {
 		val.Ty = retype(val.Ty, x.Type())
 		e.bind(f, x, val)
 		if inv := e.typeInv(st, f.vals[x]); inv != "true" {
-			e.S.assume(inv)
+			e.assume(inv)
 		}
 	case token.NOT:
 		e.bind(f, x, Val{T: not(v.T), Ty: v.Ty})
@@ -437,10 +439,10 @@ func (e *Exec) execConvert(f *frame, st *State, x *ssa.Convert) {
 		r := e.allocRef(st, "bytes")
 		sl := app("mk-slice", r, "0", app("str.len", v.T))
 		e.bind(f, x, Val{T: sl, Ty: tyOfGo(x.Type())})
-		e.S.assume(eq(e.bytesToString(f.vals[x].T), v.T))
+		e.assume(eq(e.bytesToString(f.vals[x].T), v.T))
 	case tok && tb.Info()&types.IsString != 0 && isByteSlice(from):
 		e.bind(f, x, Val{T: e.bytesToString(v.T), Ty: tyOfGo(x.Type())})
-		e.S.assume(eq(app("str.len", f.vals[x].T), app("sl-len", v.T)))
+		e.assume(eq(app("str.len", f.vals[x].T), app("sl-len", v.T)))
 	case fok && tok && fb.Info()&types.IsString != 0 && tb.Info()&types.IsString != 0:
 		e.bind(f, x, Val{T: v.T, Ty: tyOfGo(x.Type())})
 	default:
@@ -498,11 +500,11 @@ func (e *Exec) execSlice(f *frame, st *State, x *ssa.Slice) {
 			e.allAllocs[r] = true
 			ety := tyOfGo(t.Elem())
 			if !isStructValType(t.Elem()) {
-				name := elemHeapName(ety.Sort())
+				name := elemHeapName(ety)
 				e.regHeap(name, "(Array Int (Array Int "+ety.Sort()+"))")
 				e.ensureSortDecl(ety)
 				E := e.get(st, name)
-				e.S.assume(fmt.Sprintf("(forall ((i Int)) (=> (and (<= 0 i) (< i (- %s %s))) (= (select (select %s %s) i) (select (select %s (sl-base %s)) (+ %s i)))))", hi, lo, E, r, E, v.T, lo))
+				e.assume(fmt.Sprintf("(forall ((i Int)) (=> (and (<= 0 i) (< i (- %s %s))) (= (select (select %s %s) i) (select (select %s (sl-base %s)) (+ %s i)))))", hi, lo, E, r, E, v.T, lo))
 			}
 			e.bind(f, x, Val{T: app("mk-slice", r, "0", app("-", hi, lo)), Ty: tyOfGo(x.Type())})
 		}
@@ -550,15 +552,15 @@ func (e *Exec) execTypeAssert(f *frame, st *State, x *ssa.TypeAssert) {
 	if x.CommaOk {
 		okn := ok
 		if !isAtom(okn) {
-			okn = e.S.define(e.S.freshName(f.prefix+x.Name()+".ok"), "Bool", ok)
+			okn = e.defOrInline(e.S.freshName(f.prefix+x.Name()+".ok"), "Bool", ok)
 		}
 		vv := ite(okn, val.T, zero)
 		if !isAtom(vv) {
-			vv = e.S.define(e.S.freshName(f.prefix+x.Name()+".v"), val.Ty.Sort(), vv)
+			vv = e.defOrInline(e.S.freshName(f.prefix+x.Name()+".v"), val.Ty.Sort(), vv)
 		}
 		rv := Val{T: vv, Ty: val.Ty}
 		if inv := e.typeInv(st, rv); inv != "true" {
-			e.S.assume(inv)
+			e.assume(inv)
 		}
 		f.vals[x] = Val{Tuple: []Val{rv, {T: okn, Ty: tyBool}}, Ty: tyOfGo(x.Type())}
 		return
@@ -566,7 +568,7 @@ func (e *Exec) execTypeAssert(f *frame, st *State, x *ssa.TypeAssert) {
 	e.panicObl(f, st, "typeassert("+types.TypeString(x.AssertedType, func(p *types.Package) string { return p.Name() })+")", ok, x)
 	e.bind(f, x, val)
 	if inv := e.typeInv(st, f.vals[x]); inv != "true" {
-		e.S.assume(implies(st.Reach, inv))
+		e.assume(implies(st.Reach, inv))
 	}
 }
 
@@ -584,18 +586,18 @@ func (e *Exec) execNext(f *frame, st *State, x *ssa.Next) {
 	vis := e.get(st, it.visited)
 	val, pres := e.mapLookup(st, it.m.T, k, it.mt)
 	// ok => k is present and not visited; !ok => every present key has been visited
-	e.S.assume(implies(st.Reach, implies(okc, and(pres, not(app("select", vis, k))))))
-	pn := mapPHeapName(kty.Sort(), vty.Sort())
+	e.assume(implies(st.Reach, implies(okc, and(pres, not(app("select", vis, k))))))
+	pn := mapPHeapName(kty, vty)
 	q := fmt.Sprintf("(forall ((kk %s)) (=> (and (not (= %s 0)) (select (select %s %s) kk)) (select %s kk)))", kty.Sort(), it.m.T, e.get(st, pn), it.m.T, vis)
-	e.S.assume(implies(st.Reach, implies(not(okc), q)))
+	e.assume(implies(st.Reach, implies(not(okc), q)))
 	e.setDef(st, it.visited, ite(okc, app("store", vis, k, "true"), vis))
 	vv := val.T
 	if !isAtom(vv) {
-		vv = e.S.define(e.S.freshName(f.prefix+x.Name()+".v"), vty.Sort(), vv)
+		vv = e.defOrInline(e.S.freshName(f.prefix+x.Name()+".v"), vty.Sort(), vv)
 	}
 	rv := Val{T: vv, Ty: vty}
 	if inv := e.typeInv(st, rv); inv != "true" {
-		e.S.assume(inv)
+		e.assume(inv)
 	}
 	f.vals[x] = Val{Tuple: []Val{{T: okc, Ty: tyBool}, {T: k, Ty: kty}, rv}, Ty: tyOfGo(x.Type())}
 }
